@@ -14,6 +14,7 @@ var Registry = map[string]Prop{
 	"C04": {C04, c04Replay},
 	"C05": {C05, c05Replay},
 	"C06": {C06, c06Replay},
+	"C07": {C07, c07Replay},
 	"C09": {C09, c09Replay},
 	"C10": {C10, c10Replay},
 	"C11": {C11, c11Replay},
